@@ -388,15 +388,53 @@ def c11tags (q : Bytes) (r : Outcome (Option Query)) : String :=
   | .err e => "err:" ++ ((e.splitOn " ").take 2 |> joinWith "_")
   | .panic _ => "panic"
 
+/-- the rows of the float table: token ↦ canonical value text -/
+def floatRowsOf (s : String) : List (Bytes × Bytes) :=
+  if s = "-" then [] else (s.splitOn ",").filterMap fun r =>
+    match r.splitOn "=" with
+    | [k, v] => match unhex k, unhex v with
+      | some k, some v => some (k, v)
+      | _, _ => none
+    | _ => none
+
+/-- tie G: `NewQuery` as translated (panic-aware) from internal/mapr on this run, on the same query text.  The external
+    functions are answered from the same tables as the model's oracles: `strconv.ParseFloat` returns the row number of
+    the token in the float table (an opaque number: only its text is observable), `funcs.NewFunctionStack` and
+    `strconv.Atoi` are the model's. -/
+def c11translated (table : String) (q : Bytes) : String :=
+  let rows := floatRowsOf table
+  let ext : Go.Ext :=
+    { parseFloat := fun t => match rows.findIdx? (·.1 == t) with | some k => (((k : Nat) : Int) + 1, none) | none => (0, some (b!"syntax")),
+      atoi := fun t => match atoi t with | some n => (n, none) | none => (0, some (b!"syntax")),
+      newFunctionStack := fun t => match funcStack t with
+        | .ok (fs, arg) => (fs, arg, none)
+        | .err e => ([], [], some (str e))
+        | .panic e => ([], [], some (str ("PANIC " ++ e))),
+      fuel := q.length + 2 }
+  let ftxt (v : Int) : Bytes := if v ≤ 0 then [] else ((rows[(v - 1).toNat]?).map (·.2)).getD []
+  match Gen.MaprQuery.NewQuery ext q with
+  | .ok (some g, none) =>
+    let sel := g.Select.map fun s => s!"{hx s.Field}|{hx s.FieldStorage}|{s.Operation}"
+    let whr := g.Where.map fun w => s!"{w.lType}|{hx w.lString}|{hx (ftxt w.lFloat)}|{w.Operation}|{w.rType}|{hx w.rString}|{hx (ftxt w.rFloat)}"
+    let set := g.Set.map fun c => s!"{hx c.lString}|{c.rType}|{hx c.rString}|{hx (ftxt c.rFloat)}|{hx (joinByte 43 c.functionStack)}"
+    let out := match g.Outfile with | none => "none" | some o => s!"{hx o.FilePath}/{boolStr o.AppendMode}"
+    s!"sel={vjoin sel};table={hx g.Table};where={vjoin whr};set={vjoin set};group={vjoin (g.GroupBy.map hx)};order={hx g.OrderBy};rev={boolStr g.ReverseOrder};key={hx g.GroupKey};interval={Int.tdiv g.Interval 1000000000};limit={g.Limit};outfile={out};logformat={hx g.LogFormat}"
+  | .ok (none, none) => "NIL"
+  | .ok (_, some _) => "ERR"
+  | .err _ => "ERR"
+  | .panic _ => "PANIC"
+
 def opC11Parse : List String → Res
   | [qh, expected, table] => match unhex qh with
     | some q =>
       let r := newQuery (floatTableOf table) q
-      let m := match r with
+      let m0 := match r with
         | .ok (some p) => dumpQuery p
         | .ok none => "NIL"
         | .err _ => "ERR"
         | .panic p => "PANIC " ++ p
+      let gen := c11translated table q
+      let m := if gen = m0 ∨ (gen = "PANIC" ∧ m0.startsWith "PANIC") then m0 else m0 ++ " TRANSLATED=" ++ gen
       { m := m, s := if expected = "-" then "-" else
           (match unhex expected with | some e => String.fromUTF8! ⟨e.toArray⟩ | none => "-"),
         t := c11tags q r }
